@@ -326,10 +326,15 @@ def explore(
     }
     q0, s0 = _SolverStats.queries, _SolverStats.seconds
 
+    deadline = float(os.environ.get("VF_DEADLINE", "0") or 0)
     for i in range(max_paths):
         now = time.process_time()
         if now - t_start > budget_s:
             res["stopped_by"] = "budget"
+            break
+        if deadline and time.time() > deadline:
+            # the wall-clock cap of the whole check (tier) is reached: what was explored so far counts, nothing more is claimed
+            res["stopped_by"] = "tier-wall-cap"
             break
         space = StateSpace(
             execution_deadline=now + per_path_timeout,
